@@ -1175,7 +1175,8 @@ class Emitter:
         for c in consts:
             # a const generic of the callee is taken to be the caller's parameter of the same name
             if c not in (getattr(self, 'const_generics', None) or []) and not (
-                    getattr(self, 'uint_mode', False) is True and len(consts) == 1):
+                    getattr(self, 'uint_mode', False) is True and len(consts) == 1) and not (
+                    getattr(self, 'uint_mode', False) and c in ('BITS', 'LIMBS')):
                 raise TranslateError('cannot infer const generic %s of %s' % (c, ln))
         if consts and getattr(self, 'uint_mode', False) is True and consts[0] not in (getattr(self, 'const_generics', None) or []):
             # a `[u64; N]` parameter of the callee receives `self.limbs`: N is LIMBS
@@ -1195,6 +1196,9 @@ class Emitter:
         'wrapping_sub': ('((%s + 2 ^ BITS - %s) %% 2 ^ BITS)', 'uint'),
         'overflowing_mul': ('((%s * %s) %% 2 ^ BITS, decide (2 ^ BITS ≤ %s * %s))', ('tuple', ['uint', 'bool'])),
         'overflowing_add': ('((%s + %s) %% 2 ^ BITS, decide (2 ^ BITS ≤ %s + %s))', ('tuple', ['uint', 'bool'])),
+        # C03 / C02: `checked_div` is `None` for a zero divisor, `checked_mul` is `None` exactly when the product does not fit
+        'checked_div': ('(if %s == 0 then none else some (%s / %s))', ('option', 'uint')),
+        'checked_mul': ('(if decide (%s * %s < 2 ^ BITS) then some (%s * %s) else none)', ('option', 'uint')),
     }
 
     def mcall(self, e, env, exp):
@@ -1228,8 +1232,10 @@ class Emitter:
                 aa = [self.expr(a, env, 'uint' if name != 'bit' else 'usize')[0] for a in args]
                 if name == 'bit':
                     return '(' + tmpl % (aa[0], sr, aa[0]) + ')', rt
-                if name in ('overflowing_mul', 'overflowing_add'):
+                if name in ('overflowing_mul', 'overflowing_add', 'checked_mul'):
                     return '(' + tmpl % (sr, aa[0], sr, aa[0]) + ')', rt
+                if name == 'checked_div':
+                    return '(' + tmpl % (aa[0], sr, aa[0]) + ')', rt
                 return '(' + tmpl % tuple([sr] + aa) + ')', rt
             raise TranslateError('Uint method %s has no value-level meaning here' % name)
         if isinstance(tr, str) and tr in WIDTH:
@@ -1284,6 +1290,8 @@ class Emitter:
             if name == 'unwrap_or' and len(args) == 1:
                 sd, _ = self.expr(args[0], env, tr[1])
                 return '((%s).getD %s)' % (sr, sd), tr[1]
+            if name == 'unwrap_or_default' and not args and tr[1] == 'uint' and getattr(self, 'uint_mode', False) == 'value':
+                return '((%s).getD 0)' % sr, 'uint'          # `Uint::default()` is ZERO
             if name == 'map_or' and len(args) == 2 and args[1][0] == 'closure' and len(args[1][1]) == 1:
                 sd, td = self.expr(args[0], env, exp)
                 x = args[1][1][0]
@@ -1414,6 +1422,9 @@ class Emitter:
             return len(sig) > 7 and bool(sig[7])
         if e[0] == 'mcall' and getattr(self, 'uint_mode', False) is True:
             sig = self.fns.get('Uint::' + e[2], ())
+            return len(sig) > 7 and bool(sig[7])
+        if e[0] == 'mcall' and getattr(self, 'uint_mode', False) == 'value':
+            sig = self.fns.get('UintV::' + e[2], ())
             return len(sig) > 7 and bool(sig[7])
         return False
 
@@ -2423,6 +2434,9 @@ class Emitter:
                 if node[0] == 'mcall' and len(self.fns.get('Uint::' + node[2], ())) > 7 and self.fns['Uint::' + node[2]][7] \
                         and getattr(self, 'uint_mode', False) is True:
                     return True
+                if node[0] == 'mcall' and len(self.fns.get('UintV::' + node[2], ())) > 7 and self.fns['UintV::' + node[2]][7] \
+                        and getattr(self, 'uint_mode', False) == 'value':
+                    return True
                 return any(may_panic(x) for x in node)
             return False
         # a function that can panic (`expect` / `unwrap` of `None`, or a callee that can) returns `Option`: `none` = panic
@@ -2856,9 +2870,15 @@ def gcd_value_items(repo):
     u = {'uint': 'value', 'group': 'gcdv', 'externs': ext, 'file': f, 'structs': {'LehmerMatrix': MATRIX},
          'gconsts': {'LehmerMatrix::IDENTITY': ('Ruint.Lehmer.ident', MATRIX)},
          'panic_externs': ('LehmerMatrix::from', 'lehmer_apply'), 'method_rewrites': {'apply': 'lehmer_apply'}}
-    return [dict(u, fn='gcd', lean='val_gcd', key='UintV::alg_gcd'),
-            dict(u, fn='gcd_extended', lean='val_gcd_extended', key='UintV::alg_gcd_extended'),
-            dict(u, fn='inv_mod', lean='val_inv_mod', key='UintV::alg_inv_mod')]
+    w = dict(u, self_ty='uint')
+    return [dict(u, fn='gcd', lean='val_gcd', key='gcd'),
+            dict(u, fn='gcd_extended', lean='val_gcd_extended', key='gcd_extended'),
+            dict(u, fn='inv_mod', lean='val_inv_mod', key='inv_mod'),
+            # the `Uint` methods over them (src/gcd.rs, src/modular.rs)
+            dict(w, file=repo + '/src/gcd.rs', fn='gcd', lean='val_uint_gcd', key='UintV::gcd'),
+            dict(w, file=repo + '/src/gcd.rs', fn='lcm', lean='val_uint_lcm', key='UintV::lcm'),
+            dict(w, file=repo + '/src/gcd.rs', fn='gcd_extended', lean='val_uint_gcd_extended', key='UintV::gcd_extended'),
+            dict(w, file=repo + '/src/modular.rs', fn='inv_mod', lean='val_uint_inv_mod', key='UintV::inv_mod')]
 
 
 def radix_items(repo):
